@@ -12,6 +12,7 @@ RULE = ("1-3 inputs (+ optional climatology file) with differing coverage, text 
         "refmodel selection (ranges inclusive; -lx last; -d whole UTC days; -tod hours). An empty selection must end in "
         "an error exit or all-NaN output. signature = (sorted option subset, per-option value class); non-trivial = the "
         "selection is a strict non-empty subset, or empty.")
+RULE += " " + "The MAE of every csv slice is also compared with the selected cases' (not only the counts)."
 ASSUMPTIONS = ["location metadata is consistent across files (the first file's is used for range options)",
                "initialisation times on whole hours; coordinates exactly representable in float32"]
 REQUIRED_COUNTERS = ["option_sets", "list_checks", "data_attr_checks", "csv_checks", "empty_selection_checks", "strict_subsets"]
